@@ -29,6 +29,10 @@ def opsCli (op : String) (args : List SExp) : Option String :=
       -- `spp parse` on a well-framed file whose packets are shorter than the definition describes: whatever is printed,
       -- the command ends without a traceback
       some "no-traceback"
+  | "parsebad", [_kind] =>
+      -- `spp parse` on a file holding a packet the definition cannot decode (an unlisted enumeration value), or with a
+      -- definition whose root container has another name than CCSDSPacket: no traceback
+      some "no-traceback"
   | _, _ => none
 
 end Driver
